@@ -733,6 +733,9 @@ class SymX:
                 if (op, r[1]) in (("==", 0), ("<", 1), ("<=", 0)):
                     return f_not(x)
             if op in ("==", "!="):
+                c_, o_ = (l, r) if l[0] == "const" else (r, l)
+                if is_const(c_, ".") and o_[0] == "mcall" and o_[2] == "join" and is_const(o_[1], ".") and len(o_[3]) == 1 and _is_path_parts(o_[3][0]):
+                    return ("const", op == "!=")  # the parts of a path are never empty or ".": joined with "." they are never "."
                 if r[0] == "const" and r[1] is True:
                     return self.truth(l) if op == "==" else f_not(self.truth(l))
                 if r[0] == "const" and r[1] is False:
@@ -1871,7 +1874,53 @@ class SymX:
                 return ms[0][1]
         return None
 
+    def _comp_over_generator(self, e: ast.AST, st: State, gen: "tuple[FuncInfo, ast.Call]") -> Term:
+        """`[f(x) for x in self._walk(...)]` over a generator of the repository: the generator is executed in place and the
+        element expression is evaluated at every `yield` (as the body of a for loop would be)."""
+        callee, call = gen
+        g0 = e.generators[0]
+        depth = len(st.envs)
+        lid = self.fresh()
+        loop = Loop(lid, "gen", ("fn", callee.fq), None, self.fi, e)
+        caller_frame = self.frame
+        recv, args, kwargs = self._call_operands(call, st)
+        base = len(st.pc)
+        collected: list[tuple[Formula, Term]] = []
+
+        def on_yield(value: Term, gst: State) -> State:
+            saved_envs = gst.envs[depth:]
+            saved_pc = gst.pc
+            gst.envs = gst.envs[:depth]
+            outer_env = gst.envs[-1]
+            gst.envs[-1] = dict(outer_env)  # the comprehension's own scope
+            self.frames.append(caller_frame)
+            self.loops.append(loop)
+            try:
+                self._assign(g0.target, value, gst, None)
+                for c in g0.ifs:
+                    f = self.truth(self.eval(c, gst))
+                    if f != TRUE:
+                        gst.pc = gst.pc + (f,)
+                elt = self.eval(e.elt, gst)
+                collected.append((simplify(f_and(gst.pc[base:])), elt))
+            finally:
+                self.loops.pop()
+                self.frames.pop()
+            gst.envs[-1] = outer_env
+            gst.envs = gst.envs[:depth] + saved_envs
+            gst.pc = saved_pc
+            gst.alive = True
+            return gst
+
+        _res, out = self._enter(callee, call, recv, args, kwargs, st, on_yield=on_yield)
+        out.alive = True
+        return ("yields", tuple(collected), lid)
+
     def _comp(self, e: ast.AST, st: State) -> Term:
+        if not isinstance(e, ast.DictComp) and len(e.generators) == 1 and not e.generators[0].is_async:
+            gen = self._generator_callee(e.generators[0].iter, st)
+            if gen is not None and self._may_enter(gen[0]):
+                return self._comp_over_generator(e, st, gen)
         inner = st.copy()
         inner.envs[-1] = dict(inner.env)
         gens = []
@@ -2326,6 +2375,15 @@ class SymX:
         enter = self.enter_ctor(ci) if ci is not None and self.enter_ctor is not None else (
             ci is not None and self.entry is not None and (not ci.bases or _private_helper_class(ci)) and ci is not self.entry.cls and not ci.is_dataclass and (ci.module is self.entry.module or ci.name.startswith("_"))
         )
+        if ci is not None and self.repo.lookup_method(ci, "__init__") is None and ci.is_dataclass:
+            # containers made by `field(default_factory=...)` exist from the moment the object is made
+            fields = [a for c in reversed(self.repo.mro(ci)) for a in c.ann_attrs]
+            given = set(fields[: len(args)]) | {k for k, _v in kwargs}
+            for a in fields:
+                if a not in given:
+                    dflt = self._field_default(ci, a, call)
+                    if dflt is not None and dflt[0] == "box":
+                        st.heap[(obj, a)] = dflt
         if ci is not None and enter:
             init = self.repo.lookup_method(ci, "__init__")
             if init is not None and len(self.frames) <= self.max_depth and init.fq not in [f.fi.fq for f in self.frames]:
@@ -2480,6 +2538,12 @@ def _format_pieces(fmt: str, nargs: int) -> "list | None":
             return None
         out.append((idx,))
     return out
+
+
+def _is_path_parts(t: Term) -> bool:
+    while t[0] == "call" and t[1] in (("builtin", "list"), ("builtin", "tuple")) and len(t[2]) == 1 and not t[3]:
+        t = t[2][0]
+    return t[0] == "attr" and t[2] == "parts"
 
 
 def _nonempty_str(t: Term) -> bool:
